@@ -29,9 +29,9 @@ theorem truncated_32768_wraps :
 
 /-- the hypothesis n ≤ SHRT_MAX of `period_n` / `interval_stored` is necessary also for the repaired code:
     set_heart_beat(40000) stores the clamped interval 32767, not 40000 ... -/
-theorem clamp_witness : queryHeartBeat (setHeartBeat {} 0 (satEfun 40000)) 0 = 32767 := by decide
+theorem clamp_witness : queryHeartBeat (setHeartBeat {} 0 (NV.Gen.C11.efunSat 40000)) 0 = 32767 := by decide
 
 /-- ... and 2^32 (which the unrepaired efun truncated to 0 = "disable") enables with 32767 as well -/
-theorem clamp_witness_int : queryHeartBeat (setHeartBeat {} 0 (satEfun 4294967296)) 0 = 32767 := by decide
+theorem clamp_witness_int : queryHeartBeat (setHeartBeat {} 0 (NV.Gen.C11.efunSat 4294967296)) 0 = 32767 := by decide
 
 end NV.C11
